@@ -206,14 +206,25 @@ func runC14(c *Ctx) {
 		refs := append([]ssa.Instruction{}, *w.Referrers()...)
 		alias := map[ssa.Value]bool{w: true}
 		for i := 0; i < len(refs); i++ {
-			if ch, ok := refs[i].(*ssa.ChangeInterface); ok {
-				alias[ch] = true
-				refs = append(refs, *ch.Referrers()...)
+			switch ch := refs[i].(type) {
+			case *ssa.ChangeInterface:
+				if !alias[ch] {
+					alias[ch] = true
+					refs = append(refs, *ch.Referrers()...)
+				}
+			case *ssa.Phi:
+				// "the message writer, or a discarding writer when NextWriter failed"
+				if !alias[ch] {
+					alias[ch] = true
+					refs = append(refs, *ch.Referrers()...)
+				}
 			}
 		}
 		for _, ref := range refs {
 			switch x := ref.(type) {
-			case *ssa.ChangeInterface:
+			case *ssa.ChangeInterface, *ssa.Phi:
+			case *ssa.BinOp:
+				// comparison of the writer with nil
 			case *ssa.Call:
 				if isCloseW(x) {
 					continue
@@ -249,12 +260,32 @@ func runC14(c *Ctx) {
 			id, op := p.lockOp(ci)
 			return op == -1 && id == writeLock
 		}
-		if wit := reachFrom(call, unlock, isCloseW); wit != nil {
+		// (only paths on which NextWriter succeeded have an open writer)
+		var werr ssa.Value
+		for _, ref := range *call.Referrers() {
+			if ex, ok := ref.(*ssa.Extract); ok && ex.Index == 1 {
+				werr = ex
+			}
+		}
+		var veto func(*ssa.BasicBlock, int) bool
+		if werr != nil {
+			veto = c.errEdgeVeto(werr, false)
+		}
+		if wit := reachFromF(call, unlock, isCloseW, veto); wit != nil {
 			okAll = false
 			c.bad("R14.1b", construct, c.ipos(wit), "the write lock can be released while the message writer is still open")
 		}
+		mustFollowOK := func(u ssa.Instruction) ssa.Instruction {
+			sr := newIPSearch(isEnd, isCloseW)
+			sr.up = true
+			sr.edgeOK = veto
+			if sr.scan(u.Block(), instrIndex(u)+1, nil) {
+				return sr.found
+			}
+			return nil
+		}
 		for _, u := range uses {
-			if ret := mustFollow(u, isCloseW); ret != nil {
+			if ret := mustFollowOK(u); ret != nil {
 				okAll = false
 				c.bad("R14.1b", construct, c.ipos(ret), fmt.Sprintf("a path from the use of the writer at %s returns without closing (flushing) it", c.ipos(u)))
 			}
